@@ -237,7 +237,7 @@ def run():
     for _fid, pg, inst in E.directed_known(rng):                # one hand-built program per open finding the streams seldom hit
         cases.append((pg, [inst or P.gen_instance(rng, max_rows=7, min_rows=5)]))
     for _lbl, pg in E.directed_fixed():                         # replays of repaired findings: nothing excuses a recurrence
-        cases.append((pg, [P.gen_instance(rng, max_rows=7, min_rows=5), P.gen_instance(rng, max_rows=7, min_rows=5)]))
+        cases.append((pg, [pg.meta.get("instance") or P.gen_instance(rng, max_rows=7, min_rows=5), P.gen_instance(rng, max_rows=7, min_rows=5)]))
     recs3 = E.run_stream(ck, "directed", cases, targets, judge_rows, classify)
     segments_stream(ck, recs3)
 
